@@ -93,6 +93,10 @@ func runC05(res *lib.Result, tier string, seed int64, args []string) error {
 			// several statements / blocks on one line: sibling scopes share a line
 			src = compactLayout(root.Fork(uint64(5000000+i)), src, i%8 == 7)
 		}
+		if i%3 == 1 {
+			// methods: the implicit self, explicit parameters after it, a method called through ':' and '.'
+			src += scopeMethodBlock
+		}
 		progs = append(progs, src)
 	}
 	for pi, src := range progs {
@@ -123,6 +127,9 @@ func runC05(res *lib.Result, tier string, seed int64, args []string) error {
 			res.Sample(map[string]interface{}{"program": src, "occurrences": len(occs)})
 		}
 		for _, o := range occs {
+			if o.name == "self" {
+				continue // the implicit parameter: the server resolves it to the table the method belongs to (documented)
+			}
 			for end := 0; end < 2; end++ {
 				col, m := o.sc, o.ms
 				if end == 1 {
@@ -163,6 +170,17 @@ func runC05(res *lib.Result, tier string, seed int64, args []string) error {
 				okModel := impl == m
 				if m == "-" {
 					okModel = impl == "-" || isGlobalSite(impl)
+					// a global with assignment sites in this file must resolve to one of them
+					nSites := 0
+					for _, w := range occs {
+						if w.name == o.name && w.s == "G" && w.kind == "W" {
+							nSites++
+						}
+					}
+					if o.s == "G" && nSites > 0 && impl == "-" {
+						res.AddViolation("impl-vs-spec", fmt.Sprintf("definition answers nothing for the global %s, which is assigned in %d place(s) of this file", o.name, nSites), caseText, false)
+						continue
+					}
 				}
 				if !okModel {
 					failing := impl != o.s && cls == "" && !(o.s == "G" && (impl == "-" || isGlobalSite(impl)))
